@@ -31,8 +31,12 @@ def gen_dict(rnd, small=True):
     std, anc = [], []
     for _ in range(rnd.randint(2, 14 if small else 30)):
         r = reading(4) if rnd.random() < 0.9 else reading(4) + reading(4)      # now and then a long reading: its length score dwarfs the others'
+        if rnd.random() < 0.03:
+            r = "".join(rnd.choice(alpha) for _ in range(rnd.randint(17, 22)))  # a very long reading (any internal cap on reading length)
         sp = rnd.choice(STD_SPEECHES) if rnd.random() < 0.93 else rnd.choice(ANC_SPEECHES)
         w = "".join(rnd.choice(KANJI) for _ in range(rnd.randint(1, 2))) + (r[-1] if rnd.random() < 0.3 else "")
+        if rnd.random() < 0.06:
+            w = r                                      # written exactly as it is read (さくら/さくら)
         std.append([r, w, sp])
         if rnd.random() < 0.15:      # duplicate word / same reading different word
             std.append([r, rnd.choice([w, rnd.choice(KANJI)]), rnd.choice(STD_SPEECHES)])
@@ -85,7 +89,7 @@ def gen_input(rnd, d, alpha, maxlen=8):
         # a character no reading contains (punctuation, katakana, digit) in the MIDDLE or at the head: words before it are still offered,
         # it stays in the candidate as it is (katakana is not hiragana)
         k = rnd.randrange(len(s) + 1)
-        s = s[:k] + rnd.choice(["、", "。", "デ", "ハ", "ン", "ァ", "ヴ", "7", "Q", "・"]) + s[k:]
+        s = s[:k] + rnd.choice(["、", "。", "デ", "ハ", "ン", "ァ", "ヴ", "7", "Q", "・", "\u3099", "\u309a", "ゝ", "ｶ"]) + s[k:]
     if rnd.random() < 0.12:
         # white space and other characters no reading contains, at either end: they stay in the candidate as they are
         ws = rnd.choice([" ", "\n", "\t", "\u3000", "\r\n", "\u00a0", "A", "１"])
@@ -98,7 +102,7 @@ def gen_freq(rnd, d):
     if rnd.random() < 0.5:
         return f
     for w in rnd.sample(d["std"], min(len(d["std"]), rnd.randint(1, 4))):
-        f.append([rnd.choice(CONTEXTS), w[1], rnd.randint(1, 5) if rnd.random() < 0.8 else rnd.randint(11, 60), 0])
+        f.append([rnd.choice(CONTEXTS), w[1], rnd.randint(1, 5) if rnd.random() < 0.8 else rnd.choice([rnd.randint(11, 60), 255, 256, 65535, 65536, 70000]), 0])
     return f
 
 
@@ -238,7 +242,7 @@ TEST_DIC = {"alphabet": FULL_ALPHA,
             "anc": [["まで", "まで", {"Particle": "Adverbial"}], ["で", "で", {"Particle": "Case"}]]}
 
 
-def corpus_queries():
+def corpus_queries(heavy=False):
     qs = []
     for inp in ["くるまではしらなかった", "くるまで", "くる", "く", "くるまでくるまで", "xくるま"]:
         for ctx in CONTEXTS:
@@ -249,6 +253,26 @@ def corpus_queries():
     for inp in ["しんは", "しんでん", "でんしん", "こは", "しんでんしんは"]:
         for ctx in CONTEXTS:
             qs.append({"op": "kkc_query", "dict": d, "context": ctx, "freq": [["Normal", "電", 3, 0]], "input": inp, "n": 100})
+    # one text with very many tilings (the search meets thousands of duplicates before the next distinct text)
+    d3 = {"alphabet": FULL_ALPHA, "std": [["くるま", "車", {"Noun": "Common"}], ["も", "藻", {"Noun": "Common"}]],
+          "anc": [["も", "も", {"Particle": "Adverbial"}], ["もも", "もも", {"Particle": "Adverbial"}], ["も", "も", {"Affix": "Suffix"}]]}
+    for inp, n in [("くるま" + "も" * 12, 3), ("くるま" + "も" * 14, 4)]:
+        qs.append({"op": "kkc_query", "dict": d3, "context": "Normal", "freq": [], "input": inp, "n": n})
+    # fewer distinct texts than n, each with thousands of tilings (particles モ / モモ, a suffix at every position): all of them are returned
+    d4 = {"alphabet": FULL_ALPHA, "std": [["き", "木", {"Noun": "Common"}], ["きも", "肝", {"Noun": "Common"}]],
+          "anc": [["も", "モ", {"Particle": "Adverbial"}], ["も", "藻", {"Affix": "Suffix"}], ["もも", "モモ", {"Particle": "Adverbial"}]]}
+    if heavy:       # about 80 s in the model: only the n-best property's check carries it
+        qs.append({"op": "kkc_query", "dict": d4, "context": "Normal", "freq": [], "input": "き" + "も" * 16, "n": 10})
+    # a dictionary reading of 17 and of 20 kana at the head of the input
+    long17, long20 = "あいうえおかきくけこさしすせそたち", "あいうえおかきくけこさしすせそたちつてと"
+    d5 = {"alphabet": FULL_ALPHA, "std": [[long17, "長十七", {"Noun": "Common"}], [long20, "長二十", {"Noun": "Common"}], ["あい", "愛", {"Noun": "Common"}]], "anc": [["で", "で", {"Particle": "Case"}]]}
+    for inp in [long17, long17 + "で", long20 + "で", long17[:16], long20[:19]]:
+        qs.append({"op": "kkc_query", "dict": d5, "context": "Normal", "freq": [], "input": inp, "n": 1000000})
+    # a combining (han)dakuten after a kana is a character of its own: か + U+3099 is not が
+    d6 = {"alphabet": FULL_ALPHA, "std": [["がっこう", "学校", {"Noun": "Common"}], ["か", "可", {"Noun": "Common"}], ["っこう", "結構", {"Noun": "Common"}], ["ぱん", "麺麭", {"Noun": "Common"}]],
+          "anc": [["お", "御", {"Affix": "Prefix"}]]}
+    for inp in ["か\u3099っこう", "おか\u3099っこう", "は\u309aん", "がっこう", "か\u3099"]:
+        qs.append({"op": "kkc_query", "dict": d6, "context": "Normal", "freq": [], "input": inp, "n": 100})
     # voiced / unvoiced neighbours after a prefix (おざけ is not お + さけ)
     d2 = {"alphabet": FULL_ALPHA, "std": [["さけ", "酒", {"Noun": "Common"}], ["かみ", "紙", {"Noun": "Common"}], ["はし", "箸", {"Noun": "Common"}]],
           "anc": [["お", "御", {"Affix": "Prefix"}], ["てき", "的", {"Affix": "Suffix"}]]}
@@ -320,7 +344,7 @@ def kkc_run(prop, tier, seed, props_file, extra_cone, predicate, nq_quick=400, n
         res.tie_broken("harness build failed", hlog[-1500:])
         return res.finish({"obligations": info["obligations"], "discharged": info["discharged"], "checker_cmd": "make", "trusted_base": TRUSTED_COMMON}, [])
     nq = nq_quick if tier == "quick" else nq_thorough
-    qs = corpus_queries() + (make_q(rnd, nq) if make_q else make_queries(rnd, nq))
+    qs = corpus_queries(heavy=(prop == "C02")) + (make_q(rnd, nq) if make_q else make_queries(rnd, nq))
     rs = harness_parallel(qs, chunk=max(20, len(qs) // 32))
     nontrivial = 0
     for q, r in zip(qs, rs):
